@@ -50,7 +50,7 @@ Proof. induction l as [|a r IH]; simpl; [reflexivity | rewrite IH; reflexivity].
 Section Facts.
   Variable pd_get_loc : list label -> label -> outcome loc.
   Variable pd_contains : list label -> label -> bool.
-  Variable cast : dtype -> pyval -> outcome cell.
+  Variable cast : nat -> dtype -> pyval -> outcome cell.
   Notation locate' := (locate pd_get_loc).
   Notation contains' := (span_contains pd_contains).
   Notation build_positions' := (build_positions pd_get_loc pd_contains).
@@ -144,7 +144,7 @@ Section Facts.
   Definition series_rel (ols labels : list label) (fills : list (string * pyval)) (fv : pyval)
              (a b : string * series cell) : Prop :=
     fst b = fst a /\ s_dtype (snd b) = s_dtype (snd a)
-    /\ exists c, fill_cell' (s_dtype (snd a)) (fill_for fills fv (fst a)) = Ret c
+    /\ exists c, fill_cell' (length labels) (s_dtype (snd a)) (fill_for fills fv (fst a)) = Ret c
               /\ s_data (snd b) = reindexed_data ols (s_data (snd a)) c labels.
 
   Lemma reindex_vars_spec ols labels m fills fv : forall vars next vars',
@@ -157,7 +157,7 @@ Section Facts.
     induction vars as [|[name sr] r IH]; intros next vars' HF Hwf H; simpl in H.
     - inversion H. split; [constructor | reflexivity].
     - inversion Hwf as [|? ? Hlen Hwf']; subst. simpl in Hlen.
-      destruct (fill_cell' (s_dtype sr) (fill_for fills fv name)) as [c|e] eqn:Ec; simpl in H; [|discriminate].
+      destruct (fill_cell' (length labels) (s_dtype sr) (fill_for fills fv name)) as [c|e] eqn:Ec; simpl in H; [|discriminate].
       pose proof (copy_over_spec ols (s_data sr) c labels [] m Hlen HF) as Hco. simpl in Hco. rewrite Hco in H. simpl in H.
       destruct (reindex_vars' (length labels) m fills fv r (next + 1)) as [r'|e] eqn:Er; simpl in H; [|discriminate].
       inversion H; subst. destruct (IH (next + 1) r' HF Hwf' Er) as [I1 I2]. split.
@@ -205,7 +205,7 @@ Section Facts.
   (* element-wise reading of series_rel: the value at each period of the new span *)
   Lemma series_rel_at ols labels fills fv a b i p :
     series_rel ols labels fills fv a b -> nth_error labels i = Some p ->
-    exists c, fill_cell' (s_dtype (snd a)) (fill_for fills fv (fst a)) = Ret c
+    exists c, fill_cell' (length labels) (s_dtype (snd a)) (fill_for fills fv (fst a)) = Ret c
            /\ nth_error (s_data (snd b)) i = Some (match pos p ols with Some q => nth q (s_data (snd a)) c | None => c end)
            /\ length (s_data (snd b)) = length labels.
   Proof.
@@ -247,7 +247,7 @@ Section Facts.
     (forall id, In id (series_ids (c_vars st') ++ attr_ids (c_attrs st')) -> fresh <= id)
     (* object references in the result come from the original's cells or from the fill value *)
     /\ (forall id, In id (object_ids (c_vars st')) ->
-          In id (object_ids (c_vars st)) \/ exists dt v, cast dt v = Ret (CO id)).
+          In id (object_ids (c_vars st)) \/ exists n dt v, cast n dt v = Ret (CO id)).
   Proof.
     intros Hwf Hok H. unfold reindex_M in H.
     destruct ((match strict with None => c_strict st | Some b => b end) && existsb (fun kv => negb (mem_name (fst kv) (c_vars st))) fills); [discriminate|].
@@ -281,7 +281,7 @@ Section Facts.
     (forall id, In id (ids st) -> id < fresh) ->
     ~ In new_id (ids st) ->
     object_ids (c_vars st) = [] ->
-    (forall dt v id, cast dt v <> Ret (CO id)) ->
+    (forall n dt v id, cast n dt v <> Ret (CO id)) ->
     reindex_M' st new_span new_id fv strict fills fresh = Ret st' ->
     forall id, In id (ids st') -> ~ In id (ids st).
   Proof.
@@ -292,7 +292,7 @@ Section Facts.
     - rewrite Hsid in Hid. subst. contradiction.
     - rewrite app_assoc in Hid. apply in_app_or in Hid as [Hid|Hid].
       + apply F1 in Hid. apply Hlt in Hin. lia.
-      + apply F2 in Hid as [Hid|[dt [v Hid]]]; [rewrite Hobj in Hid; contradiction | exact (Hcast dt v id Hid)].
+      + apply F2 in Hid as [Hid|[n [dt [v Hid]]]]; [rewrite Hobj in Hid; contradiction | exact (Hcast n dt v id Hid)].
   Qed.
 
   (* ================= unknown_fill_rejected_only_strict ================= *)
@@ -342,7 +342,7 @@ Section Facts.
   Lemma reindex_vars_succeeds ols labels m fills fv : forall vars next,
     Forall2 pos_rel m (expected_positions ols 0 labels) ->
     Forall (fun kv => length (s_data (snd kv)) = length ols) vars ->
-    Forall (fun kv => exists c, fill_cell' (s_dtype (snd kv)) (fill_for fills fv (fst kv)) = Ret c) vars ->
+    Forall (fun kv => exists c, fill_cell' (length labels) (s_dtype (snd kv)) (fill_for fills fv (fst kv)) = Ret c) vars ->
     exists vars', reindex_vars' (length labels) m fills fv vars next = Ret vars'.
   Proof.
     induction vars as [|[name sr] r IH]; intros next HF Hwf Hc; simpl; [eexists; reflexivity|].
@@ -356,7 +356,7 @@ Section Facts.
     wf st ->
     old_span_ok (c_span st) (span_labels new_span) ->
     (effective_strict st strict = false \/ forall kv, In kv fills -> mem_name (fst kv) (c_vars st) = true) ->
-    Forall (fun kv => exists c, fill_cell' (s_dtype (snd kv)) (fill_for fills fv (fst kv)) = Ret c) (c_vars st) ->
+    Forall (fun kv => exists c, fill_cell' (length (span_labels new_span)) (s_dtype (snd kv)) (fill_for fills fv (fst kv)) = Ret c) (c_vars st) ->
     exists st', reindex_M' st new_span new_id fv strict fills fresh = Ret st'.
   Proof.
     intros Hwf Hok Hs Hc. unfold reindex_M.
@@ -377,11 +377,12 @@ Section Facts.
   Proof. reflexivity. Qed.
   (* dtype defaults for `None` that the code itself supplies (NaN for floats is NumPy's conversion of None: cast DFloat PNone) *)
   Theorem fill_none_defaults :
-    fill_cell' DBool PNone = Ret (CB false) /\ fill_cell' DInt PNone = Ret (CI 0)
-    /\ (forall w, fill_cell' (DStr w) PNone = Ret (CS "")) /\ fill_cell' DFloat PNone = cast DFloat PNone
-    /\ (forall dt v, v <> PNone -> fill_cell' dt v = cast dt v).
+    forall n,
+    fill_cell' n DBool PNone = Ret (CB false) /\ fill_cell' n DInt PNone = Ret (CI 0)
+    /\ (forall w, fill_cell' n (DStr w) PNone = Ret (CS "")) /\ fill_cell' n DFloat PNone = cast n DFloat PNone
+    /\ (forall dt v, v <> PNone -> fill_cell' n dt v = cast n dt v).
   Proof.
-    repeat split; try reflexivity. intros dt v Hv. destruct v; try reflexivity. congruence.
+    intros n. repeat split; try reflexivity. intros dt v Hv. destruct v; try reflexivity. congruence.
   Qed.
 
   Theorem model_defaults fills fv :
@@ -407,7 +408,7 @@ Section Facts.
   Qed.
 
   (* ================= the pandas mixin: what its control flow guarantees whatever pandas / NumPy answer ================= *)
-  Variable series_reindex : span -> list cell -> span -> option string -> pyval -> outcome (list cell).
+  Variable series_reindex : span -> dtype -> list cell -> span -> option string -> pyval -> outcome (list cell).
   Variable assign_cast : dtype -> list cell -> outcome (list cell).
   Notation pandas_loop' := (pandas_loop series_reindex assign_cast).
 
@@ -422,7 +423,7 @@ Section Facts.
     - inversion H; subst. repeat split; reflexivity.
     - destruct (lookup name (c_vars orig)) as [so|]; [|discriminate].
       destruct (lookup name (c_vars r)) as [sn|] eqn:En; [|discriminate].
-      destruct (series_reindex (c_span orig) (s_data so) new_span (mf name) (fill_for fills fv name)) as [vals|e]; simpl in H; [|discriminate].
+      destruct (series_reindex (c_span orig) (s_dtype so) (s_data so) new_span (mf name) (fill_for fills fv name)) as [vals|e]; simpl in H; [|discriminate].
       destruct (assign_cast (s_dtype sn) vals) as [d|e]; simpl in H; [|discriminate].
       destruct (IH _ _ H) as [I1 [I2 [I3 [I4 [I5 [I6 I7]]]]]].
       split; [rewrite I1; reflexivity|]. split; [rewrite I2; reflexivity|]. split; [rewrite I3; reflexivity|].
